@@ -186,7 +186,8 @@ func Int(t *rapid.T, label string, small bool) int {
 	case c <= 5:
 		return rapid.IntRange(-5, 20).Draw(t, label)
 	case c <= 7:
-		return rapid.SampledFrom([]int{0, 1, -1, math.MaxInt64, math.MinInt64, math.MaxInt32, math.MinInt32, 255, 1 << 40, 8, 9, 10, 16}).Draw(t, label+"b")
+		return rapid.SampledFrom([]int{0, 1, -1, math.MaxInt64, math.MinInt64, math.MaxInt32, math.MinInt32, 255, 1 << 40, 8, 9, 10, 16,
+			1 << 53, 1<<53 + 1, -(1 << 53) - 1, 1 << 62, math.MaxInt64 - 1, 1<<24 + 1, 1 << 24}).Draw(t, label+"b")
 	default:
 		return rapid.Int().Draw(t, label)
 	}
